@@ -317,7 +317,9 @@ def _apportion_exact(nhap, pos, st, sp):
     for _ in range(nhap - len(gl)):
         d = [c - i for c, i in zip(cur, ideal)]
         mn = min(d); ix = d.index(mn)
-        if any(j != ix and abs(x - mn) < Fraction(1, 10 ** 6) for j, x in enumerate(d)): return None
+        near = [j for j, x in enumerate(d) if j != ix and abs(x - mn) < Fraction(1, 10 ** 6)]
+        # a tie between chromosomes of identical length and count is an exact tie in binary64 too: the first index wins
+        if any(not (gl[j] == gl[ix] and cur[j] == cur[ix]) for j in near): return None
         cur[ix] += 1
     return cur
 
@@ -338,7 +340,8 @@ def emit_case(case, out):
     if use is not None:
         U = E.lst(use, nat)
         parts.append("list_eqb (opt_eqb Nat.eqb) (haplobin fops %s %s %s %s) %s" % (U, GP, ST, SP, E.lst(out["hbin"], _onat)))
-        parts.append("lin_ok_f %s %s %s %s" % (U, GP, ST, SP))
+        if not case.get("unsorted"):                               # the hypothesis of the float-instance theorems, checked per case
+            parts.append("lin_hyp_f %s %s" % (U, E.lst([pos[a:b] for a, b in zip(st, sp)], lambda c: E.lst(c, fh))))
         if all(_linspace_exact(pos[a], pos[b - 1], k) for k, a, b in zip(use, st, sp)):
             parts.append("list_eqb (opt_eqb Nat.eqb) (haplobin qops %s %s %s %s) %s" % (U, E.lst(pos, E.q), ST, SP, E.lst(out["hbin"], _onat)))
         if all(x >= 0 for x in out["hbin"]):
